@@ -53,7 +53,7 @@ CONSTANTS
     \* TRUE = the obvious repair, for the day the code is fixed:
     FixEmptySnapshot,  \* TfrAdv on a snapshot without segments returns nothing instead of indexing offsets[-1]
     FixBoolAdvance,    \* BooleanSearcher.Advance re-advances the should searcher only when it trails the target
-    FixShouldMin       \* the unadorned disjunction searcher keeps the requested Min()
+    FixShouldMin       \* the unadorned disjunction optimisation is not applied when a minimum >= 1 is requested
 
 Q == INSTANCE Query
 
@@ -271,8 +271,12 @@ MkConj(kids, none) ==
 
 MkDisj(kids, min, none) ==
     IF Len(kids) = 0 THEN None
-    ELSE IF none /\ Len(kids) > 1 /\ min <= 1 /\ \A i \in DOMAIN kids : Optimizable(kids[i])
-         THEN MkUTfr(OptDisj([i \in DOMAIN kids |-> TfrOf(kids[i])]), IF FixShouldMin THEN min ELSE 0)
+    \* "len(qsearchers) > 1 && min < 1" since a0964f3; as found "min <= 1": the
+    \* optimised term searcher reports Min() = 0, so a boolean searcher
+    \* consulting Min() treated an explicit should-minimum of 1 as optional
+    ELSE IF none /\ Len(kids) > 1 /\ (IF FixShouldMin THEN min < 1 ELSE min <= 1)
+            /\ \A i \in DOMAIN kids : Optimizable(kids[i])
+         THEN MkUTfr(OptDisj([i \in DOMAIN kids |-> TfrOf(kids[i])]), 0)
     ELSE [k |-> "disj", heap |-> (Len(kids) > HeapTakeover), kids |-> kids, min |-> min,
           currs |-> [i \in DOMAIN kids |-> Nil], inheap |-> {}, matching |-> << >>,
           init |-> FALSE]
